@@ -103,18 +103,34 @@ class Run:
 def mon_C01(run):
     """live (pool's) objects + objects being created <= max_size; holders <= max_size;
     only for histories without resize / close"""
-    if run.has_resize or run.has_close:
+    if run.has_close:
         return []
+    if run.has_resize:
+        # resize() calls that never lower max_size (to the current value, or growing) leave the
+        # property in force: the limit is the current max_size.  A history with a shrink is
+        # C07's business (surplus objects legitimately exist for a while).
+        seen = [int(r["obs"]["max"]) for r in run.rows if r and r["obs"]["max"] != "?"]
+        targets = [int(op["spec"][0]) for op in run.ops if op["kind"] == "resize"]
+        cur = run.max0
+        for t in targets:
+            if t < cur:
+                return []
+            cur = max(cur, t)
+        if any(b < a for a, b in zip(seen, seen[1:])):
+            return []
     bad = []
+    cur_max = run.max0
     for row in run.rows:
         if row is None:
             continue
+        if row["obs"]["max"] != "?":
+            cur_max = max(cur_max, int(row["obs"]["max"]))
         pooled = [x for x in row["live"] if x not in run.discarded_in_hand(row)]
         n = len(pooled) + run.creating(row)
-        if n > run.max0:
-            bad.append((row["k"], f"{len(pooled)} live objects + {run.creating(row)} being created > max_size {run.max0}"))
-        if len(row["out"]) > run.max0:
-            bad.append((row["k"], f"{len(row['out'])} callers hold an object > max_size {run.max0}"))
+        if n > cur_max:
+            bad.append((row["k"], f"{len(pooled)} live objects + {run.creating(row)} being created > max_size {cur_max}"))
+        if len(row["out"]) > cur_max:
+            bad.append((row["k"], f"{len(row['out'])} callers hold an object > max_size {cur_max}"))
         if bad:
             break
     return bad
@@ -146,6 +162,9 @@ def mon_C02(run):
             name, args = ev_args(e)
             if name == "oppanic" and int(args[0]) not in panics:
                 bad.append((k, f"operation #{args[0]} panicked"))
+            if name == "closed" and d["closed"] != "1":
+                # a waiting get() is completed as soon as the pool is closed: close() must close
+                bad.append((k, f"close() #{args[0]} returned but the pool is not closed: callers waiting for a slot stay blocked"))
             if name == "result" and args[1] == "panicked" and int(args[0]) not in panics:
                 bad.append((k, f"get #{args[0]} panicked without an injected panic"))
             if name == "result" and row["section"] == "probe":
